@@ -6,11 +6,11 @@ cd /repo || exit 9
 if ! git diff --quiet; then echo "/repo not clean"; exit 9; fi
 git apply "$patch" || { echo "patch does not apply"; exit 9; }
 cd /verif
-mkdir -p replays; ls replays | sort > /dev/shm/replays.before.$$
+# replays and evidence of a run against a modified /repo are kept out of /verif
+export VERIF_REPLAYS=/dev/shm/mutant_replays
+cp -a /verif/evidence /dev/shm/evidence.keep.$$
 ./check "$prop" "$tier" 2>&1 | cut -c1-400 | grep -v "^    " | tail -12
 rc=${PIPESTATUS[0]}
 git -C /repo checkout -- .
-# remove only the replay files this run created
-ls /verif/replays | sort | comm -13 /dev/shm/replays.before.$$ - | while read f; do rm -f "/verif/replays/$f"; done; rm -f /dev/shm/replays.before.$$
-git -C /verif checkout -- evidence 2>/dev/null
+rm -rf /verif/evidence; mv /dev/shm/evidence.keep.$$ /verif/evidence
 echo "rc=$rc"
